@@ -1,3 +1,4 @@
+from amqpstorm.compatibility import quote
 from amqpstorm.management.base import ManagementHandler
 
 API_CHANNEL = 'channels/%s'
@@ -17,7 +18,7 @@ class Channel(ManagementHandler):
 
         :rtype: dict
         """
-        return self.http_client.get(API_CHANNEL % channel)
+        return self.http_client.get(API_CHANNEL % quote(channel, ''))
 
     def list(self, name=None, page_size=None, use_regex=False):
         """List all Channels.
